@@ -134,7 +134,9 @@ func runC04(c *Ctx) {
 			okLLU, okGUA, extra := false, false, []string{}
 			for _, d := range dnf {
 				switch {
-				case strings.Contains(d, llu) && !strings.Contains(d, "!"+llu) && !strings.Contains(d, gua):
+				case strings.Contains(d, llu) && !strings.Contains(d, "!"+llu) && !strings.Contains(d, gua) && !strings.Contains(d, rtr):
+					// a link-local source creates a host whatever its MAC (the router's link-local address is tracked too):
+					// the router test belongs to the global-unicast alternative only
 					okLLU = true
 				case strings.Contains(d, "!"+llu) && strings.Contains(d, gua) && !strings.Contains(d, "!"+gua) && strings.Contains(d, "!"+rtr):
 					okGUA = true
@@ -537,10 +539,51 @@ func runC05(c *Ctx) {
 	}
 	if mo := c.A.Method("", "Session", "makeOffline"); mo != nil {
 		ok := false
+		why := ""
 		core.EachInstr(mo, func(i ssa.Instruction) {
 			if s, isS := i.(*ssa.Store); isS && strings.HasSuffix(norm(s.Addr), ".MACEntry.Online") {
-				if _, isPhi := s.Val.(*ssa.Phi); isPhi {
-					ok = true // the value computed by the loop over the host list
+				// the value is "some host of the list is online": a φ network whose leaves are the constant false (nothing
+				// found yet) and the constant true on an edge taken under an element's Online flag; a leaf that loads an
+				// element's flag directly (macOnline = v.Online) makes the result the last element's state
+				seen := map[ssa.Value]bool{}
+				good, leaves := true, 0
+				var walk func(v ssa.Value)
+				walk = func(v ssa.Value) {
+					if seen[v] {
+						return
+					}
+					seen[v] = true
+					switch t := v.(type) {
+					case *ssa.Phi:
+						for k, e := range t.Edges {
+							if cv, isC := e.(*ssa.Const); isC {
+								leaves++
+								if b, _ := constBool(cv); b {
+									// the edge that brings true: its source block runs under an element's Online test
+									pred := t.Block().Preds[k]
+									under := false
+									for _, g := range guardsOf(pred.Instrs[len(pred.Instrs)-1]) {
+										if g.Pol && strings.HasSuffix(g.Text, ".Online") {
+											under = true
+										}
+									}
+									if !under {
+										good = false
+										why = "the flag becomes true on an edge that is not under a host's Online test"
+									}
+								}
+								continue
+							}
+							walk(e)
+						}
+					default:
+						good = false
+						why = "the flag is computed from " + norm(v) + ", not accumulated over the list (it ends up as the last host's state)"
+					}
+				}
+				walk(s.Val)
+				if good && leaves >= 2 {
+					ok = true
 				}
 			}
 		})
@@ -549,7 +592,7 @@ func runC05(c *Ctx) {
 			st = core.Violated
 		}
 		r.Add(core.Obligation{Rule: "online", Key: "online makeOffline recomputes the MAC entry flag", Func: core.FuncName(mo), Pos: c.P.Pos(mo.Pos()), Status: st,
-			Basis: "MACEntry.Online = (some host in the list is online)", Detail: "makeOffline does not recompute MACEntry.Online from the host list"})
+			Basis: "MACEntry.Online = (some host in the list is online)", Detail: "makeOffline does not recompute MACEntry.Online as 'some host of the list is online': " + why})
 	}
 }
 
@@ -757,6 +800,31 @@ func runC06(c *Ctx) {
 			r.Add(core.Obligation{Rule: "frame-marked", Key: fmt.Sprintf("frame-marked Parse transition site %d", k+1), Func: core.FuncName(parse), Pos: c.P.Pos(core.PosOf(ins)), Status: st,
 				Basis: "frame.flags = markOnlineTransition() follows the transition on every path", Detail: "after onlineTransition the frame is not marked with markOnlineTransition(): notify will not emit the offline notifications of the superseded addresses before the online one"})
 		}
+	}
+	// Notify finds the host of a DHCP frame (no source address, frame.Host == nil) through MACEntry.IP4Offer: DHCPv4Update
+	// records the address it has just made current there, on every path, so that the notification that follows is
+	// the one of that address (a stale value makes notify report the superseded address twice and the new one late)
+	r.Rule("dhcp-lookup", "DHCPv4Update records the updated address for Notify's lookup on every path", 1)
+	if du := c.A.Method("", "Session", "DHCPv4Update"); du != nil {
+		var lookup ssa.Instruction
+		for _, s := range callsIn(du, nameIs("findOrCreateHostWithLock")) {
+			lookup = s.(ssa.Instruction)
+		}
+		st := core.Violated
+		det := "the host lookup of DHCPv4Update was not found"
+		if lookup != nil {
+			ok, exit := mustPass(lookup, func(j ssa.Instruction) bool {
+				so, isS := j.(*ssa.Store)
+				return isS && strings.HasSuffix(norm(so.Addr), ".MACEntry.IP4Offer") && strings.HasSuffix(norm(so.Val), ".Addr.IP")
+			})
+			if ok {
+				st, det = core.Proved, ""
+			} else {
+				det = "a path from the host lookup reaches the return at " + c.P.Pos(core.PosOf(exit)) + " without MACEntry.IP4Offer = host.Addr.IP: Notify then looks the DHCP frame's host up under a previous address"
+			}
+		}
+		r.Add(core.Obligation{Rule: "dhcp-lookup", Key: "dhcp-lookup DHCPv4Update records the address", Func: core.FuncName(du), Pos: c.P.Pos(du.Pos()), Status: st,
+			Basis: "every path from the lookup to a return stores MACEntry.IP4Offer = host.Addr.IP", Detail: det})
 	}
 	// every online transition is reported: once Host.Online is set, dirty is set on every path to the return
 	r.Rule("transition-dirty", "an online transition always marks the host for notification", 1)
